@@ -36,10 +36,24 @@ def _bycat(d):
 
 
 def export(name):
-    from pendulum.locales.locale import Locale
+    """The tables are read from the locale's DATA module directly (pendulum/locales/<name>/locale.py): the Locale class
+    - key look-up and its cache, plural(), ordinal() - is code under test, not a source of specification data."""
+    from importlib import import_module
 
-    loc = Locale.load(name)
-    g = loc.get
+    data = import_module("pendulum.locales.%s.locale" % name).locale
+
+    def g(key):
+        x = data
+        for part in key.split("."):
+            if not isinstance(x, dict) or part not in x:
+                return None
+            x = x[part]
+        return x
+
+    class loc:          # noqa: N801 - the two category functions of the data module
+        plural = staticmethod(data["plural"])
+        ordinal = staticmethod(data["ordinal"])
+
     out = {
         "months_wide": [_t((g("translations.months.wide") or {}).get(m)) for m in range(1, 13)],
         "months_abbr": [_t((g("translations.months.abbreviated") or {}).get(m)) for m in range(1, 13)],
